@@ -295,7 +295,7 @@ class FuncLowerer:
         rec = u.records.get(recname)
         if rec is None:
             from cxx2c import PREDEFINED_STRUCTS
-            if recname in u.cfg.opaque_records or recname.startswith('std::pmr::memory_resource') or recname in PREDEFINED_STRUCTS:
+            if recname in u.cfg.opaque_records or recname.startswith('std::pmr::memory_resource') or recname in PREDEFINED_STRUCTS or recname in u.cfg.trivial_copy:
                 return None
             if recname in u.cfg.outside_methods:
                 cn = sanitize(u.alias(recname)) + '_dtor'
@@ -485,6 +485,12 @@ class FuncLowerer:
             abort('too many initialisers', e)
         for (kind, cname, x), el in zip(fields, elems):
             fty = u.type_of(x) if kind == 'field' else x
+            if el.get('kind') == 'CXXDefaultInitExpr' and not el.get('inner') and kind == 'field':
+                # clang's JSON does not repeat the default member initialiser here: take it from the field declaration
+                ini = [c for c in x.get('inner', []) if c.get('kind', '').endswith('Expr') or c.get('kind', '').endswith('Literal')]
+                if len(ini) != 1:
+                    abort('default member initialiser of %s not found' % cname, el)
+                el = ini[0]
             out += self.init_object('%s.%s' % (target, cname), fty, el, ind)
         if len(elems) < len(fields):
             abort('init list shorter than record', e)
